@@ -1,6 +1,6 @@
 use anyhow::{bail, Error, Result};
 use dcbor::prelude::*;
-use bc_components::{tags, Digest};
+use bc_components::{tags, Digest, DigestProvider};
 #[cfg(feature = "encrypt")]
 use bc_components::EncryptedMessage;
 #[cfg(feature = "compress")]
@@ -108,6 +108,14 @@ impl CBORTaggedDecodable for Envelope {
                     .cloned()
                     .map(Self::from_untagged_cbor)
                     .collect::<Result<Vec<Self>, Error>>()?;
+                // The assertions of a node must be serialized in strictly
+                // ascending order of their digests (deterministic encoding,
+                // no duplicates). Reject anything else instead of silently
+                // re-sorting it, which would accept bytes that do not
+                // re-encode to themselves.
+                if !assertions.windows(2).all(|pair| pair[0].digest() < pair[1].digest()) {
+                    bail!("node assertions must be in strictly ascending digest order")
+                }
                 Ok(Self::new_with_assertions(subject, assertions)?)
             }
             CBORCase::Map(_) => {
